@@ -4,13 +4,13 @@ use crate::support::*;
 use educe::Educe;
 use core::cmp::Ordering;
 #[derive(Educe)]
-#[educe(PartialOrd, PartialEq, Eq)]
-pub enum T { C { #[educe(PartialOrd(rank(1)))] arg: u8, #[educe(PartialOrd(rank = 7))] r#type: () }, None { #[educe(PartialOrd(rank = "+2"))] size: Option<u8>, #[educe(PartialOrd(rank = 8))] b: bool }, V1 { c: i64, other: bool, data: () }, Some(#[educe(PartialOrd(rank(1)))] i64) }
+#[educe(Eq, PartialOrd, PartialEq, Ord)]
+pub enum T { A { other: i64, #[educe(PartialOrd(rank = "-2"))] arg: u8 }, V1 {  } }
 
-pub fn values() -> Vec<T> { vec![T::C { arg: 0, r#type: () }, T::C { arg: 100, r#type: () }, T::C { arg: 200, r#type: () }, T::None { size: None, b: false }, T::None { size: None, b: true }, T::None { size: Some(0), b: false }, T::None { size: Some(0), b: true }, T::None { size: Some(255), b: false }, T::None { size: Some(255), b: true }, T::V1 { c: -5, other: false, data: () }, T::V1 { c: -5, other: true, data: () }, T::V1 { c: 0, other: false, data: () }, T::V1 { c: 0, other: true, data: () }, T::V1 { c: 9, other: false, data: () }, T::V1 { c: 9, other: true, data: () }, T::Some(-5), T::Some(0), T::Some(9)] }
-pub fn show(x: &T) -> String { #[allow(unused_variables)] match x { T::C { arg: p0, r#type: p1 } => format!("C({},{})", sv(p0), sv(p1)), T::None { size: p0, b: p1 } => format!("None({},{})", sv(p0), sv(p1)), T::V1 { c: p0, other: p1, data: p2 } => format!("V1({},{},{})", sv(p0), sv(p1), sv(p2)), T::Some(p0) => format!("Some({})", sv(p0)) } }
-pub fn o_disc(x: &T) -> i128 { match x { T::C { arg: _, r#type: _ } => 0, T::None { size: _, b: _ } => 1, T::V1 { c: _, other: _, data: _ } => 2, T::Some(_) => 3 } }
-pub fn o_pcmp(a: &T, b: &T) -> Option<Ordering> { match (a, b) { (T::C { arg: a0, r#type: a1 }, T::C { arg: b0, r#type: b1 }) => { match ::core::cmp::PartialOrd::partial_cmp(a0, b0) { Some(Ordering::Equal) => (), x => return x } match ::core::cmp::PartialOrd::partial_cmp(a1, b1) { Some(Ordering::Equal) => (), x => return x } Some(Ordering::Equal) }, (T::None { size: a0, b: a1 }, T::None { size: b0, b: b1 }) => { match ::core::cmp::PartialOrd::partial_cmp(a0, b0) { Some(Ordering::Equal) => (), x => return x } match ::core::cmp::PartialOrd::partial_cmp(a1, b1) { Some(Ordering::Equal) => (), x => return x } Some(Ordering::Equal) }, (T::V1 { c: a0, other: a1, data: a2 }, T::V1 { c: b0, other: b1, data: b2 }) => { match ::core::cmp::PartialOrd::partial_cmp(a0, b0) { Some(Ordering::Equal) => (), x => return x } match ::core::cmp::PartialOrd::partial_cmp(a1, b1) { Some(Ordering::Equal) => (), x => return x } match ::core::cmp::PartialOrd::partial_cmp(a2, b2) { Some(Ordering::Equal) => (), x => return x } Some(Ordering::Equal) }, (T::Some(a0), T::Some(b0)) => { match ::core::cmp::PartialOrd::partial_cmp(a0, b0) { Some(Ordering::Equal) => (), x => return x } Some(Ordering::Equal) }, _ => Some(o_disc(a).cmp(&o_disc(b))) } }
+pub fn values() -> Vec<T> { vec![T::A { other: -5, arg: 0 }, T::A { other: -5, arg: 100 }, T::A { other: -5, arg: 200 }, T::A { other: 0, arg: 0 }, T::A { other: 0, arg: 100 }, T::A { other: 0, arg: 200 }, T::A { other: 9, arg: 0 }, T::A { other: 9, arg: 100 }, T::A { other: 9, arg: 200 }, T::V1 {  }] }
+pub fn show(x: &T) -> String { #[allow(unused_variables)] match x { T::A { other: p0, arg: p1 } => format!("A({},{})", sv(p0), sv(p1)), T::V1 {  } => format!("V1()") } }
+pub fn o_disc(x: &T) -> i128 { match x { T::A { other: _, arg: _ } => 0, T::V1 {  } => 1 } }
+pub fn o_cmp(a: &T, b: &T) -> Ordering { match (a, b) { (T::A { other: a0, arg: a1 }, T::A { other: b0, arg: b1 }) => { let c = ::core::cmp::Ord::cmp(a0, b0); if c != Ordering::Equal { return c; } let c = ::core::cmp::Ord::cmp(a1, b1); if c != Ordering::Equal { return c; } Ordering::Equal }, (T::V1 {  }, T::V1 {  }) => {  Ordering::Equal }, _ => o_disc(a).cmp(&o_disc(b)) } }
 #[repr(C)] pub struct Wrap { pub pre: u8, pub x: T, pub post: [u8; 9] }
 pub fn wrap(i: usize, n: u8) -> Wrap { Wrap { pre: n, x: values().swap_remove(i), post: [n; 9] } }
-pub fn run(out: &mut Out) { let vs = values(); for (i, a) in vs.iter().enumerate() { for (j, b) in vs.iter().enumerate() { let e = o_pcmp(a, b); let g = ::core::cmp::PartialOrd::partial_cmp(a, b); out.check(g == e, "ordlayout_25", "partial_cmp", || format!("partial_cmp({}, {}) = {:?} expected {:?}", show(a), show(b), g, e)); for n in [0u8, 1, 0x7f, 0x80, 0xff] { let wa = wrap(i, n); let wb = wrap(j, !n); let g = ::core::cmp::PartialOrd::partial_cmp(&wa.x, &wb.x); let e = o_pcmp(a, b); out.check(g == e, "ordlayout_25", "cmp_neighbours", || format!("cmp({}, {}) with neighbour bytes {} = {:?} expected {:?}", show(a), show(b), n, g, e)); } } } }
+pub fn run(out: &mut Out) { let vs = values(); for (i, a) in vs.iter().enumerate() { for (j, b) in vs.iter().enumerate() { let e = o_cmp(a, b); let g = ::core::cmp::Ord::cmp(a, b); out.check(g == e, "ordlayout_25", "cmp", || format!("cmp({}, {}) = {:?} expected {:?}", show(a), show(b), g, e)); let g2 = ::core::cmp::PartialOrd::partial_cmp(a, b); out.check(g2 == Some(e), "ordlayout_25", "partial_is_some_cmp", || format!("partial_cmp({}, {}) = {:?} expected Some({:?})", show(a), show(b), g2, e)); for n in [0u8, 1, 0x7f, 0x80, 0xff] { let wa = wrap(i, n); let wb = wrap(j, !n); let g = ::core::cmp::Ord::cmp(&wa.x, &wb.x); let e = o_cmp(a, b); out.check(g == e, "ordlayout_25", "cmp_neighbours", || format!("cmp({}, {}) with neighbour bytes {} = {:?} expected {:?}", show(a), show(b), n, g, e)); } } } }
